@@ -25,6 +25,21 @@ KIND = {
 CLASS_OF = {v: k for k, v in KIND.items()}
 
 
+def int_digits(a):
+    """decimal digits of a non-negative int without int -> str conversion of the whole number (CPython refuses beyond 4300 digits)"""
+    if a < 10 ** 4000:
+        return [int(c) for c in str(a)]
+    chunks = []
+    base = 10 ** 4000
+    while a:
+        a, r = divmod(a, base)
+        chunks.append(r)
+    out = [int(c) for c in str(chunks[-1])]
+    for r in reversed(chunks[:-1]):
+        out += [int(c) for c in str(r).rjust(4000, "0")]
+    return out
+
+
 def big_digits(v):
     """exact decimal digits of an int beyond TLC's range, or the shortest round-trip decimal of a float:
     {dg: digits (most significant first), sc: decimal scale, sg: sign} meaning sg * dg / 10^sc."""
@@ -36,7 +51,7 @@ def big_digits(v):
     except Exception:  # pragma: no cover
         pass
     if isinstance(v, int):
-        return {"dg": [int(c) for c in str(abs(v))], "sc": 0, "sg": -1 if v < 0 else 1}
+        return {"dg": int_digits(abs(v)), "sc": 0, "sg": -1 if v < 0 else 1}
     t = Decimal(repr(float(v))).as_tuple()
     digits = list(t.digits)
     if t.exponent > 0:
